@@ -448,6 +448,25 @@ class Index:
             return body[0].value.attr
         return None
 
+    def getter_chain(self, c, name):
+        """If `name` is a @property on c's MRO whose body is `return self.a.b[.c]` (an attribute of a component),
+        return ['a', 'b', ...], else None."""
+        f = self.lookup_method(c, name)
+        if f is None or 'property' not in f.decorators():
+            return None
+        body = [st for st in f.body() if not (
+            (isinstance(st, ast.Expr) and isinstance(st.value, (ast.Call, ast.Constant))) or isinstance(st, ast.Pass))]
+        if len(body) != 1 or not isinstance(body[0], ast.Return) or not isinstance(body[0].value, ast.Attribute):
+            return None
+        parts = []
+        n = body[0].value
+        while isinstance(n, ast.Attribute):
+            parts.append(n.attr)
+            n = n.value
+        if not (isinstance(n, ast.Name) and n.id == 'self') or len(parts) < 2:
+            return None
+        return list(reversed(parts))
+
     def functions_in(self, relpath):
         m = self.module(relpath)
         out = list(m.functions.values())
